@@ -138,7 +138,13 @@ where
         let src = self.buf.split().freeze();
         let compression_level = self.compression_level;
 
+        #[cfg(noodles_verif)]
+        let verif_seq = crate::verif_gate::next_seq(crate::verif_gate::Kind::Deflate);
+
         rayon::spawn(move || {
+            #[cfg(noodles_verif)]
+            crate::verif_gate::enter(crate::verif_gate::Kind::Deflate, verif_seq);
+
             let result = compress(&src, compression_level);
             buffered_tx.send(result).ok();
         });
